@@ -73,7 +73,9 @@ func c12Ops() []roOp {
 		}},
 		{"ItemsEqual(x,x)", func(it, _ ap.Item) string { return fmt.Sprint(ap.ItemsEqual(it, it)) }},
 		{"ItemsEqual(x,y)", func(it, o ap.Item) string { return fmt.Sprint(ap.ItemsEqual(it, o), ap.ItemsEqual(o, it)) }},
-		{"Format", func(it, _ ap.Item) string { return reAddr.ReplaceAllString(fmt.Sprintf("%v|%s|%+v|%#v", it, it, it, it), "0xADDR") }},
+		{"Format", func(it, _ ap.Item) string {
+			return reAddr.ReplaceAllString(fmt.Sprintf("%v|%s|%+v|%#v", it, it, it, it), "0xADDR")
+		}},
 		{"inspect", func(it, _ ap.Item) string {
 			return fmt.Sprint(ap.IsNil(it), ap.IsObject(it), ap.IsLink(it), ap.IsIRI(it), ap.IsIRIs(it), ap.IsItemCollection(it),
 				it.GetID(), it.GetType(), it.GetLink(), it.IsObject(), it.IsLink(), it.IsCollection())
@@ -338,7 +340,7 @@ func init() {
 	campaigns["C12"] = func(c *Ctx) {
 		ops := c12Ops()
 		c.Rule = fmt.Sprintf("values generated type-directed over the whole vocabulary (depth <= 2, text with escapes, multi-language values, lists, sub-records), rebuilt so that EVERY slice (item lists, byte strings, language-value lists, IRI lists) has 3 spare slots of capacity planted with sentinels. (1) For each of %d read-only operations (package and method encoders in both codecs, MarshalBinary, ItemsEqual with itself and with another value in both orders, Format with four verbs, all inspectors, DerefItem, On* views that only read, To* conversions, the language-value readers, Contains/Count/IRIs/First): a deep snapshot before and after — every byte of every byte string up to its capacity, every slice header (pointer, len, cap), every element up to capacity, pointer identities — must be identical, and a second call must return the same result. (2) The same operations from 8 goroutines on one shared value, while 2 more decode unrelated documents: every result equals the sequential one and the value is unchanged afterwards; the thorough tier runs this under the Go race detector in a separate -race build.", len(ops))
-		cfg := &GenCfg{MaxDepth: 2, Density: 20, Zones: true, Nanos: true, ValueNodes: false, Links: true, EmptyTypes: true, Negatives: true, MultiLang: true, RepeatLang: true,
+		cfg := &GenCfg{MaxDepth: 2, Density: 20, Zones: true, GobZones: true, Nanos: true, ValueNodes: false, Links: true, EmptyTypes: true, Negatives: true, MultiLang: true, RepeatLang: true,
 			NilMembers: true, Force: map[string]bool{"To": true, "Tag": true}, ForcePct: 60}
 		texts = append(texts, "C:\\new \"q\" \n\t<b>&</b> \u2028 😀", "\\u0041\\n") // escapes exercise the escaper's copy paths
 		n := c.N(250, 6000)
